@@ -1,7 +1,7 @@
 use crate::{
     cfg::Cfg,
-    parser::{HasRegisterSets, InstructionProperties, Register},
-    passes::{DiagnosticManager, LintError, LintPass},
+    parser::{HasIdentity, HasRegisterSets, InstructionProperties, Register},
+    passes::{DiagnosticLocation, DiagnosticManager, LintError, LintPass},
 };
 
 // TODO deprecate
@@ -10,6 +10,8 @@ use crate::{
 pub struct GarbageInputValueCheck;
 impl LintPass for GarbageInputValueCheck {
     fn run(cfg: &Cfg, errors: &mut DiagnosticManager) {
+        // A read in code that two functions share is reported once, not once per function
+        let mut reported = std::collections::BTreeSet::new();
         for node in cfg {
             if node.is_program_entry() {
                 // get registers
@@ -17,11 +19,13 @@ impl LintPass for GarbageInputValueCheck {
                 if !garbage.is_empty() {
                     let mut ranges = Vec::new();
                     for reg in &garbage {
-                        let mut ranges_tmp = Cfg::error_ranges_for_first_usage(&node, reg);
+                        let mut ranges_tmp = Cfg::first_usages(&node, reg);
                         ranges.append(&mut ranges_tmp);
                     }
-                    for range in ranges {
-                        errors.push(LintError::InvalidUseBeforeAssignment(range.clone()));
+                    for (user, range) in ranges {
+                        if reported.insert((user.node().id(), range.range())) {
+                            errors.push(LintError::InvalidUseBeforeAssignment(range.clone()));
+                        }
                     }
                 }
             } else if let Some(func) = node.is_function_entry_with_func() {
@@ -32,11 +36,13 @@ impl LintPass for GarbageInputValueCheck {
                 if !garbage.is_empty() {
                     let mut ranges = Vec::new();
                     for reg in &garbage {
-                        let mut ranges_tmp = Cfg::error_ranges_for_first_usage(&node, reg);
+                        let mut ranges_tmp = Cfg::first_usages(&node, reg);
                         ranges.append(&mut ranges_tmp);
                     }
-                    for range in ranges {
-                        errors.push(LintError::InvalidUseBeforeAssignment(range.clone()));
+                    for (user, range) in ranges {
+                        if reported.insert((user.node().id(), range.range())) {
+                            errors.push(LintError::InvalidUseBeforeAssignment(range.clone()));
+                        }
                     }
                 }
             }
